@@ -451,6 +451,28 @@ def standalone(R, L, rng, quick):
         same_cell('HashUpdate', lambda: utl.HashUpdate(oh, nh).serialize(), hw, {})
         st, back = mon.call(lambda: utl.HashUpdate.deserialize(bridge.to_lib(hw).begin_parse()))
         R.check(st == 'ok' and (back.old_hash, back.new_hash) == (oh, nh), 'HashUpdate-roundtrip-differs', 'HashUpdate parses differently', {})
+        # ---- values built with default arguments are independent of each other: editing one in place (as wallet code does when it adds an
+        # extra currency to an amount it built earlier) must not show up in a value or message built afterwards
+        g1, g2 = g_grams(rng), g_grams(rng)
+        st, res = mon.call(lambda: L.blk.CurrencyCollection(g1))
+        if st == 'ok' and isinstance(getattr(getattr(res, 'other', None), 'dict', None), dict):
+            res.other.dict[rng.choice([7, 239, 2 ** 32 - 1])] = rng.getrandbits(40) + 1
+            W = {'sequence': 'CurrencyCollection(g1); its .other.dict edited in place; then a new grams-only value', 'g1': str(g1), 'g2': str(g2)}
+            same_cell('CurrencyCollection-after-inplace-edit-of-another', lambda: L.blk.CurrencyCollection(g2).serialize(), T.cell_of(T.enc_currency_collection, {'grams': g2}), W)
+            same_cell('CurrencyCollection-edited-in-place', lambda: res.serialize(), T.cell_of(T.enc_currency_collection, {'grams': g1, 'other': dict(res.other.dict)}), W)
+            info = {'_': 'int_msg_info', 'ihr_disabled': True, 'bounce': False, 'bounced': False, 'src': None, 'dest': g_int_addr(rng, False), 'value': {'grams': g2, 'other': {}},
+                    'ihr_fee': 0, 'fwd_fee': 0, 'created_lt': 0, 'created_at': 0}
+            m2 = {'info': info, 'init': None, 'body': rc.RC('1')}
+            st2, lm = mon.call(lambda: L.tr.MessageAny(L.tr.InternalMsgInfo(True, False, False, None, L.addr(info['dest']), L.blk.CurrencyCollection(g2), 0, 0, 0, 0),
+                                                        None, bridge.to_lib(m2['body'])).serialize())
+            if st2 == 'ok':
+                try:
+                    got, _ = T.dec_message(bridge.from_lib(lm))
+                    R.check(diff(T.norm_msg(got), T.norm_msg(m2)) is None, 'message-after-inplace-edit-of-another-value',
+                            f'a grams-only message built after another value was edited in place decodes to {mon.srepr(T.norm_msg(got)["info"].get("value"))}', W)
+                except Exception as e:
+                    R.violation('message-after-inplace-edit-undecodable', f'{e!r}', W)
+            R.count('inplace_edit_sequences')
         R.case(mon.fp('standalone', i, R.shard))
 
 
